@@ -853,7 +853,7 @@ func c07Aggregation(p *Prog, r *Report) {
 	rs := p.RelsAt(rm, call)
 	var extra []string
 	for k := range rs {
-		if !(strings.Contains(k, "rangeindex") || strings.HasPrefix(k, "(phi:")) {
+		if !isLoopBoundFact(k) {
 			extra = append(extra, k)
 		}
 	}
